@@ -364,8 +364,108 @@ def generic_arg(text, opener):
     return text[i:]
 
 
+def first_bytes(sk, pid, depth=0):
+    """Bytes that can start something the parser accepts (read off its language); None when not computable."""
+    lang = sk.language(pid)
+    if lang is None:
+        # not a regular language (a data-driven slice, a loop): the first strict consumer of its accepting paths
+        f = sk.fns.get(pid[1]) if pid and pid[0] in ("fn", "factory") else None
+        if f is None or depth > 4:
+            return None
+        out = set()
+        for x in f["exits"]:
+            r = sk.exit_result(x)
+            if not (r and r[0][0] == "ok"):
+                continue
+            ch = sk.chain(sk.rem_of(r[0][1]), f["inp"], x, f["ps"])
+            if not ch or len(ch[0]) < 2 or not ch[0][1]:
+                return None
+            c0 = ch[0][1]
+            if c0[0] in ("tag",) and c0[1] is not None:
+                out.add(c0[1])
+            elif c0[0] == "satisfy" and c0[1] is not None:
+                out |= set(c0[1])
+            else:
+                sub = first_bytes(sk, c0, depth + 1) if c0[0] in ("fn", "factory") else None
+                if sub is None:
+                    return None
+                out |= sub
+        return out
+    out = set()
+    for seq in lang:
+        for tok in seq:
+            out |= set(tok[1])
+            if tok[0] == "one":
+                break
+    return out
+
+
+def rule_DISPATCH(ck, lib, sk, rid="C03-G"):
+    """Where the parameter parser chooses a recogniser by looking at the first byte(s) of the literal instead of trying the
+    recognisers in turn, the choice must be complete: every byte that can start a literal a recogniser accepts leads to a
+    path on which that recogniser is applied. (A dispatch that forgets `+` never tries the decimal recogniser on `+5`.)
+    The bytes a path is feasible for are over-approximated from its conditions on input[0] (unknown conditions restrict
+    nothing), the first bytes of a recogniser are read off its language."""
+    import bytecls
+    fn = "microscpi::parser::argument"
+    f = sk.fns.get(fn)
+    if f is None:
+        return
+    S = pathsum.strip_sites
+    inp = S(f["inp"])
+
+    def first_of(t):
+        t = S(t)
+        return t[0] == "index" and S(t[1]) == inp and t[2] == ("lit", "int", 0)
+    reach = {}
+    constrained = False
+    for x in f["exits"]:
+        feas = set(range(256))
+        for c in x.conds:
+            c = S(c)
+            if c[0] == "eq" and first_of(c[1]) and c[2][0] == "lit" and isinstance(c[2][2], int):
+                feas &= ({c[2][2]} if c[3] else set(range(256)) - {c[2][2]})
+                constrained = True
+            elif c[0] == "is" and c[2] == OK and c[1][0] == "apply" and c[1][1][0] == "call" and c[1][1][1].endswith("::tag") and len(c[1][2]) == 1 and S(c[1][2][0]) == inp \
+                    and c[1][1][2] and c[1][1][2][0][0] == "lit" and isinstance(c[1][1][2][0][2], int):
+                b = c[1][1][2][0][2]
+                feas &= ({b} if c[3] else set(range(256)) - {b})
+                constrained = True
+            elif c[0] == "true" and c[1][0] == "bin" and c[1][1] in ("Eq", "Ne", "Lt", "Le", "Gt", "Ge") and \
+                    ((first_of(c[1][2]) and c[1][3][0] == "lit" and isinstance(c[1][3][2], int)) or (first_of(c[1][3]) and c[1][2][0] == "lit" and isinstance(c[1][2][2], int))):
+                import operator
+                opf = {"Eq": operator.eq, "Ne": operator.ne, "Lt": operator.lt, "Le": operator.le, "Gt": operator.gt, "Ge": operator.ge}[c[1][1]]
+                if first_of(c[1][2]):
+                    feas &= {b for b in range(256) if opf(b, c[1][3][2]) == bool(c[2])}
+                else:
+                    feas &= {b for b in range(256) if opf(c[1][2][2], b) == bool(c[2])}
+                constrained = True
+            elif c[0] == "true" and c[1][0] == "call" and c[1][1].split("::")[-1] in bytecls.ASCII_TABLE and len(c[1][2]) == 1 and first_of(c[1][2][0]):
+                tab = bytecls.ASCII_TABLE[c[1][1].split("::")[-1]]
+                feas &= {b for b in range(256) if bool(tab(b)) == bool(c[2])}
+                constrained = True
+        for (pid, inp_, t, oc) in sk.apps_on_path(x, f["ps"]):
+            if pid and pid[0] in ("fn", "factory") and S(inp_) == inp:
+                reach.setdefault(pid, set()).update(feas)
+    n = 0
+    for pid, feas in sorted(reach.items(), key=str):
+        fb = first_bytes(sk, pid)
+        name = pid[1].split("::")[-1]
+        if fb is None:
+            ck.ok(rid, "argument:dispatch:%s" % name, "first bytes of %s not computable: not judged" % name, trivial=True)
+            continue
+        n += 1
+        missing = sorted(set(fb) - feas)
+        ck.judge(not missing, rid, "argument:dispatch:%s" % name,
+                 "%s is tried for every byte that can start a literal it accepts (%d first bytes%s)" % (name, len(fb), "" if constrained else "; alternatives are tried in turn, no dispatch on the first byte"),
+                 "%s is never tried for a literal that starts with %s, although it accepts such literals: they are rejected without the recogniser having been asked"
+                 % (name, ", ".join(repr(chr(b)) for b in missing[:8])))
+    ck.floor(rid, "data recognisers applied by the parameter parser with computable first bytes", n, 5)
+
+
 def rule_G(ck, lib):
     sk = skeleton.Skeleton(ck, lib)
+    rule_DISPATCH(ck, lib, sk, "C03-G")
     # the meaning of the parser combinators the skeleton is built from, read from their own bodies
     import primitives
     primitives.check(ck, lib, sk, "C03-PR")
